@@ -43,16 +43,19 @@ fn u31(x: u32) -> U31 {
     U31::new(x).unwrap()
 }
 
+/// All strings in these images are empty: `str::from_utf8` on a non-empty heap buffer does not
+/// fold under Kani (its `align_offset` model is nondeterministic), and string contents play no
+/// role in truncation / magic handling.
 fn small_dict(kind: u8, with_user: bool, with_mapper: bool) -> vibrato::Dictionary {
     let a = "\u{1}";
     let ab = "\u{1}\u{2}";
     let entries = vec![
-        RawWordEntry { surface: a.to_string(), param: WordParam::new(1, 1, 10), feature: "s0" },
-        RawWordEntry { surface: ab.to_string(), param: WordParam::new(1, 0, -7), feature: "s1" },
+        RawWordEntry { surface: a.to_string(), param: WordParam::new(1, 1, 10), feature: "" },
+        RawWordEntry { surface: ab.to_string(), param: WordParam::new(1, 0, -7), feature: "" },
     ];
     let sys = Lexicon::from_entries(&entries, LexType::System).unwrap();
     let user = if with_user {
-        let ue = vec![RawWordEntry { surface: "\u{2}".to_string(), param: WordParam::new(0, 1, 3), feature: "u0" }];
+        let ue = vec![RawWordEntry { surface: "\u{2}".to_string(), param: WordParam::new(0, 1, 3), feature: "" }];
         Some(Lexicon::from_entries(&ue, LexType::User).unwrap())
     } else {
         None
@@ -86,12 +89,12 @@ fn small_dict(kind: u8, with_user: bool, with_mapper: bool) -> vibrato::Dictiona
         CharInfo::new(2, 1, true, false, 2).unwrap(),
         CharInfo::new(2, 1, true, false, 2).unwrap(),
     ];
-    let prop = CharProperty::verif_from_parts(table, vec!["DEFAULT".to_string(), "C".to_string()]);
+    let prop = CharProperty::verif_from_parts(table, vec![String::new(), String::new()]);
     let unk = UnkHandler::verif_from_parts(
         vec![0, 1, 2],
         vec![
-            UnkEntry { cate_id: 0, left_id: 0, right_id: 1, word_cost: 100, feature: "k0".to_string() },
-            UnkEntry { cate_id: 1, left_id: 1, right_id: 1, word_cost: 50, feature: "k1".to_string() },
+            UnkEntry { cate_id: 0, left_id: 0, right_id: 1, word_cost: 100, feature: String::new() },
+            UnkEntry { cate_id: 1, left_id: 1, right_id: 1, word_cost: 50, feature: String::new() },
         ],
     );
     vibrato::Dictionary::verif_from_parts(sys, user, conn, mapper, prop, unk)
